@@ -322,8 +322,17 @@ func runC10(c *Ctx) {
 			for _, in := range b.Instrs {
 				if st, isSt := in.(*ssa.Store); isSt {
 					if fr, isF := core.FieldOfAddr(st.Addr); isF && fr.Name == "Size" {
-						if p, isP := st.Val.(*ssa.Parameter); isP && p.Name() == "size" {
-							ok = true
+						// the size parameter: the one that does not receive the limit at the call sites
+						if p, isP := st.Val.(*ssa.Parameter); isP {
+							isLimit := false
+							for _, a := range c.argsOfParam(p) {
+								if fr2, isF2 := core.FieldOfValue(core.Strip(a.v)); isF2 && fr2.Name == "MaxMessageSize" {
+									isLimit = true
+								}
+							}
+							if !isLimit && len(c.argsOfParam(p)) > 0 {
+								ok = true
+							}
 						}
 					}
 				}
